@@ -449,8 +449,12 @@ def _bad_after(n, follow, nxt):
                 return follow.startswith('[')
             return False
     if k == 'env':
-        # the reader peeks `\end{name}` with all groups that follow it: an opening bracket right
-        # after them must find its partner, so it is kept away
+        # the reader looks ahead at `\\end{name}` together with all groups that follow it (for a
+        # math environment: in math mode, where \\item is refused), and an opening bracket right
+        # after them must find its partner: both are kept away
+        if MATH_END_LIST_GUARD and n.sub == 'math' and OPENER.match(follow) and \
+                any(y.kind == 'item' for x in nxt for y in walk(x)):
+            return True
         j = 0
         while j < len(nxt):
             x = nxt[j]
@@ -479,8 +483,26 @@ def _head_bad(n, body):
     return False
 
 
+MATH_END_LIST_GUARD = True      # see _bad_after (environment rule)
+
+
 class FrameError(Exception):
     pass
+
+
+# a text node: plain characters and escaped symbols (backslash + a character that is neither a
+# letter nor a bracket/parenthesis, which would spell a command or a math switch)
+TEXT_OK = re.compile(r'(?:\\[^a-zA-Z\[\]()]|[^\\{}$%])*', re.S)
+
+
+def _open_brackets(s):
+    n = 0
+    for ch in s:
+        if ch == '[':
+            n += 1
+        elif ch == ']' and n:
+            n -= 1
+    return n
 
 
 def _choose_sep(rng, cands, ok):
@@ -517,7 +539,8 @@ def fix(node, rng=None, eof_comment=True, math=False):
                 if n.kind == 'comment':
                     sep = '\n'
                 elif n.kind == 'env':
-                    sep = _choose_sep(rng, cands, lambda c, follow=follow: not (c + follow).startswith('['))
+                    # a visible character detaches whatever follows from `\\end{name}`
+                    sep = _choose_sep(rng, [c for c in cands if c.strip() and c[0] not in '\\~'], lambda c: True)
                 else:
                     def ok(c, n=n, follow=follow, nxt=nxt):
                         return not _bad_after(n, c + follow, [text(c)] + nxt)
@@ -530,8 +553,16 @@ def fix(node, rng=None, eof_comment=True, math=False):
 
     def fix_node(n, math):
         k = n.kind
-        if k in ('text', 'comment'):
+        if k == 'text':
+            if not TEXT_OK.fullmatch(n.s):
+                raise FrameError('not a text run: %r' % n.s)
             return
+        if k == 'comment':
+            if '\n' in n.s or '\r' in n.s:
+                raise FrameError('line break inside a comment payload')
+            return
+        if k == 'group' and n.sub == 'bracket' and any(c.kind == 'text' and ']' in c.s for c in n.children):
+            raise FrameError('bare ] directly inside a bracket group')
         m = math or k == 'math' or (k == 'env' and n.sub == 'math')
         for a in n.args:
             fix_node(a, m)
@@ -690,8 +721,11 @@ class Gen:
 
     def bracket_text(self, cx):
         r = self.rng
-        forms = ['[', '[', '[a]', '[0,1)', '(0,1]', '[[', '[ b ]'] + ([] if cx.brtop else [']', ']', ']]', '] ['])
-        return text(r.choice(forms))
+        opening = ['[', '[', '[0,1)', '[[']
+        closing = [] if cx.brtop else [']', ']', ']]', '(0,1]']
+        both = [] if cx.brtop else ['] [']
+        balanced = [] if cx.brtop else ['[a]', '[ b ]']
+        return text(r.choice(['(0,1)'] + balanced + opening + closing + both))
 
     def comment(self, cx):
         r = self.rng
@@ -799,7 +833,8 @@ class Gen:
         if r.random() < 0.2:
             args = [Node('group', 'bracket', children=[text(r.choice(['a)', 'label=(i)', 'noitemsep']))])]
         seps = self.seps_for([Node('group', 'brace')] + args)[1:]
-        c = cx.inside(item=True)
+        c = cx.inside()
+        ci = cx.inside(itemtop=True)
         kids = []
         q = r.random()
         if q < 0.7:
@@ -810,7 +845,7 @@ class Gen:
             iargs = []
             if r.random() < 0.3:
                 iargs = [self.group_arg('bracket', c, min(depth, 2))]
-            it = Node('item', None, 'item', iargs, self.seq(c, depth - 1, r.randint(0, 4)),
+            it = Node('item', None, 'item', iargs, self.seq(ci, depth - 1, r.randint(0, 4)),
                       seps=self.seps_for(iargs))
             kids.append(it)
         return Node('env', 'list', name, args, kids, seps=seps)
@@ -882,8 +917,9 @@ class Gen:
         if k == 'sizing':
             return self.sizing(cx)
         if k == 'paren':
-            return text(r.choice(['(', ')', '[', '(a', 'b)', '[0,1)', '(0,1]', '(', '[']
-                                 + ([] if cx.brtop else [']', ']', ')]'])))
+            return text(r.choice(['(', ')', '(a', 'b)', '(', '(0,1)']
+                                 + ['[', '[0,1)', '[']
+                                 + ([] if cx.brtop else [']', ']', ')]', '(0,1]'])))
         if k == 'script':
             return text(r.choice(['^', '_', '^2', '_i', '^*', "_0'"]))
         if k == 'edollar':
@@ -901,22 +937,26 @@ class Gen:
 
     def free_group(self, cx, depth):
         c = cx.inside(brtop=False)
+        c.special = False       # the reader does not carry the special mode into a free group
         return Node('group', 'brace', children=self.seq(c, depth - 1, self.rng.randint(0, 4)))
 
 
 class Cx:
     """Where in the document we are generating (what the reader will know there)."""
-    __slots__ = ('math', 'special', 'brtop', 'verb_ok')
+    __slots__ = ('math', 'special', 'brtop', 'verb_ok', 'itemtop')
 
-    def __init__(self, math=False, special=False, brtop=False, verb_ok=True):
-        self.math, self.special, self.brtop, self.verb_ok = math, special, brtop, verb_ok
+    def __init__(self, math=False, special=False, brtop=False, verb_ok=True, itemtop=False):
+        self.math, self.special, self.brtop, self.verb_ok, self.itemtop = math, special, brtop, verb_ok, itemtop
 
-    def inside(self, math=None, special=None, brtop=None, env=False, item=False):
+    def inside(self, math=None, special=None, brtop=None, env=False, itemtop=False):
         """Context of the content of a nested construct.  Verbatim stays recognised only along a
-        chain of named-environment bodies starting at the top level."""
-        c = Cx(self.math, self.special, False, self.verb_ok and env and not self.math and not self.special)
+        chain of named-environment bodies starting at the top level; a math region leaves the
+        special mode of \\newcommand-style definitions."""
+        c = Cx(self.math, self.special, False, self.verb_ok and env and not self.math and not self.special,
+               itemtop)
         if math:
             c.math = True
+            c.special = False
         if special:
             c.special = True
         if brtop is not None:
@@ -926,7 +966,7 @@ class Cx:
     def admits(self, f):
         if 'verb' in f and not self.verb_ok:
             return False
-        if self.math and f & {'math', 'env', 'special'}:
+        if self.math and f & {'math', 'env', 'special', 'beginend'}:
             return False
         if self.special and 'env' in f:
             return False
